@@ -393,6 +393,30 @@ fn exec_get(out: &mut Out, sc: &mut Scen, line: &str, idx: &str, path: &str) -> 
         sc.collect_root_hits();
         traces.push(sc.log.lock().unwrap().clone());
     }
+    // every 8th get also goes through a real server built from this very router (blocking or async by
+    // op parity): what `route()` + the borrowed dispatch do with this path – "" and "/" included – must
+    // reach the same middleware and handler
+    if idx.parse::<u64>().map(|i| i % 8 == 0).unwrap_or(false) && GET_E2E_DONE.load(Ordering::SeqCst) < E2E_CAP.load(Ordering::SeqCst) / 3 {
+        GET_E2E_DONE.fetch_add(1, Ordering::SeqCst);
+        sc.log.lock().unwrap().clear();
+        let srv = if rid % 2 == 0 { 0 } else { 8 };
+        match tcp_roundtrip(sc.router.clone(), &[req.to_vec()], srv, 0, rid) {
+            Ok(_) => {
+                out.count("get.e2e.ok");
+                sc.collect_root_hits();
+                let t = sc.log.lock().unwrap().clone();
+                if t != traces[0] {
+                    out.oracle_fail("router.get.server_trace", &format!("path {:?} through a {} server reached {:?}, in-process dispatch reaches {:?}", path, if srv == 0 { "blocking" } else { "async" }, t, traces[0]), &ops);
+                }
+            }
+            Err(e) => {
+                out.count(&format!("get.e2e.io_error.{}", e));
+                if e == "no_response" {
+                    out.oracle_fail("router.get.server_no_response", &format!("path {:?}: the server did not answer although the router resolves the path", path), &ops);
+                }
+            }
+        }
+    }
     if traces[1] != traces[0] || traces[2] != traces[0] {
         out.oracle_fail("router.trace.route_mismatch", &format!("handle / handle_with_ctx / handle_view saw different middleware or handlers for {:?}: {:?}", path, traces), &ops);
     }
@@ -688,7 +712,8 @@ fn twin_router(c: &TwinCfg, blocking: bool, nmw: usize, order: u8, counts: &[Arc
 
 static E2E_DONE: AtomicU64 = AtomicU64::new(0);
 static NO_RESPONSE_SEEN: AtomicU64 = AtomicU64::new(0);
-static E2E_CAP: AtomicU64 = AtomicU64::new(600);
+static GET_E2E_DONE: AtomicU64 = AtomicU64::new(0);
+static E2E_CAP: AtomicU64 = AtomicU64::new(1500);
 
 fn async_rt() -> &'static tokio::runtime::Runtime {
     // deliberately starved: one worker, one blocking thread (class l: nothing to spare when a response is due)
@@ -1279,6 +1304,8 @@ fn exec_dstruct(out: &mut Out, ds: &mut DState, line: &str, w: &[&str]) -> (Stri
                 "/echo" => Some(if has_body { "ok" } else { "err 4" }),
                 "/ping" | "/touch" => Some("ok"),
                 "/" | "/nope" | "/inner/nope" | "/inner//x" | "/a~0" | "/inner~1x" => Some("err 6"),
+                // an empty token is a token: it names no endpoint of the (nested) struct
+                "/inner/" | "/inner/deep/" | "/inner//" | "//" | "//a" | "/inner/deep//z" | "/inner/x/" => Some("err 6"),
                 "/a/" | "/a/b" | "/inner/deep/z/q" | "/ping/x" => Some("err 6"),
                 r if r.starts_with("/inner/deep/z/1/") => Some("err 6"),
                 _ => None,
@@ -1309,6 +1336,97 @@ fn exec_dstruct(out: &mut Out, ds: &mut DState, line: &str, w: &[&str]) -> (Stri
         }
     }
     (format!("{} {}", idx, obs), obs != "none")
+}
+
+// ------------------------------------------------------------------------------------------
+// (vi) a hand-written spy struct behind 1-3 levels of #[repe(nested)] fields of derived structs
+// ------------------------------------------------------------------------------------------
+#[derive(Default, Clone, Serialize, Deserialize)]
+struct Spy {
+    #[serde(skip)]
+    log: Arc<Mutex<Vec<Vec<String>>>>,
+}
+impl RepeStruct for Spy {
+    fn repe_handle(&mut self, segments: &[&str], _body: Option<Value>) -> Result<Option<Value>, StructError> {
+        self.log.lock().unwrap().push(segments.iter().map(|s| s.to_string()).collect());
+        Ok(Some(json!("spy")))
+    }
+}
+#[derive(Default, Serialize, Deserialize, repe::RepeStruct)]
+struct Hold1 {
+    #[repe(nested)]
+    spy: Spy,
+}
+#[derive(Default, Serialize, Deserialize, repe::RepeStruct)]
+struct Hold2 {
+    #[repe(nested)]
+    outer: Hold1,
+}
+#[derive(Default, Serialize, Deserialize, repe::RepeStruct)]
+struct Hold3 {
+    #[repe(nested)]
+    top: Hold2,
+}
+
+fn exec_nest(out: &mut Out, line: &str, w: &[&str]) -> (String, bool) {
+    let idx = w[1];
+    let bad = || (format!("{} bad-op", idx), false);
+    if w.len() != 6 {
+        return bad();
+    }
+    let (Ok(depth), Some(mount), Some(rel)) = (w[2].parse::<u64>(), unshex(w[3]), unshex(w[4])) else { return bad() };
+    let has_body = w[5] == "1";
+    let ops = vec![line.to_string()];
+    let log: Arc<Mutex<Vec<Vec<String>>>> = Arc::new(Mutex::new(vec![]));
+    let spy = Spy { log: log.clone() };
+    let (chain, router) = match depth {
+        1 => ("/spy", Router::new().with_struct(&mount, Hold1 { spy }).0),
+        2 => ("/outer/spy", Router::new().with_struct(&mount, Hold2 { outer: Hold1 { spy } }).0),
+        _ => ("/top/outer/spy", Router::new().with_struct(&mount, Hold3 { top: Hold2 { outer: Hold1 { spy } } }).0),
+    };
+    let nroot = if mount.is_empty() || mount == "/" { String::new() } else if mount.starts_with('/') { mount.clone() } else { format!("/{}", mount) };
+    let prefix = format!("{}{}", nroot, chain);
+    let path = format!("{}{}", prefix, rel);
+    // a JSON string body: never a valid replacement for a struct, so a whole write is refused, not applied
+    let body: &[u8] = if has_body { b"\"b\"" } else { b"" };
+    let req = request(11, &path, body, 2);
+    let classify = |r: Result<Result<Message, RepeError>, String>, log: &Arc<Mutex<Vec<Vec<String>>>>| -> String {
+        let seen = std::mem::take(&mut *log.lock().unwrap());
+        match (r, seen.as_slice()) {
+            (Err(_), _) => "PANIC".to_string(),
+            (Ok(Ok(m)), [one]) if m.header.ec == 0 => show_segs(one),
+            (Ok(Ok(m)), []) if m.header.ec != 0 => format!("err {}", m.header.ec),
+            (Ok(Ok(_)), []) => "replaced".to_string(),
+            (Ok(Err(_)), _) => "fail".to_string(),
+            (_, many) => format!("calls {}", many.len()),
+        }
+    };
+    let Some(h) = router.get(&path) else { return (format!("{} none", idx), false) };
+    let view = MessageView { header: req.header, query: &req.query, body: &req.body };
+    let ctx = CallContext::detached(&path);
+    let nested_obs = classify(catch(|| h.handle_view(&view, &ctx)), &log);
+    // the twin shape: the same spy type mounted directly at the longer prefix
+    let log2: Arc<Mutex<Vec<Vec<String>>>> = Arc::new(Mutex::new(vec![]));
+    let direct = Router::new().with_struct(&prefix, Spy { log: log2.clone() }).0;
+    let direct_obs = match direct.get(&path) {
+        Some(h2) => classify(catch(|| h2.handle_view(&view, &ctx)), &log2),
+        None => "none".to_string(),
+    };
+    out.count(&format!("nest.depth{}.{}", depth, nested_obs.split(' ').next().unwrap()));
+    // ---- direct oracles (only where a token is left for the spy: with none left and a body the two shapes
+    // differ by design – a whole write of the field vs a write handed to the struct)
+    if let Some(want) = rfc6901(&rel) {
+        if !(want.is_empty() && has_body) {
+            let w = show_segs(&want);
+            if nested_obs != w {
+                out.oracle_fail("router.nest.rfc6901", &format!("spy nested at {:?} below a mount at {:?}, path {:?}: it was handed `{}`, the RFC 6901 tokens of the remaining path {:?} are `{}`", chain, mount, path, nested_obs, rel, w), &ops);
+            }
+            if nested_obs != direct_obs {
+                out.oracle_fail("router.nest.differs_from_direct_mount", &format!("path {:?}: the spy nested via {:?} was handed `{}`, the same spy mounted directly at {:?} was handed `{}`", path, chain, nested_obs, prefix, direct_obs), &ops);
+            }
+        }
+    }
+    (format!("{} {}", idx, nested_obs), true)
 }
 
 // ------------------------------------------------------------------------------------------
@@ -1467,6 +1585,10 @@ fn exec_line(out: &mut Out, sc: &mut Scen, ds: &mut DState, line: &str) {
             ds.ops.push(line.to_string());
             out.config(line);
             out.count("op.dlockfail");
+        }
+        "nest" => {
+            let (obs, nt) = exec_nest(out, line, &w);
+            out.case(line, &obs, nt);
         }
         "dconc" => {
             // (j) readers of /a from 1-3 threads while a writer stores w0..w9 there, all through the mount
@@ -1774,6 +1896,17 @@ impl Gen {
         }
     }
 
+    // ---- (vi) spy behind nested derived structs: empty tokens at every position
+    fn nest_case(&mut self) {
+        const RELS: &[&str] = &["", "/", "//", "/x", "/x/", "//x", "/x//y", "/x/y/", "///", "/~0", "/~1/", "/ /", "/é/", "/x/~01//"];
+        const MOUNTS: &[&str] = &["/svc", "", "/a/b", "svc", "/", "/é"];
+        let rel = if self.rng.chance(2, 3) { self.rng.pick(RELS).to_string() } else { self.rel_path() };
+        let depth = self.rng.range(1, 3);
+        let mount = *self.rng.pick(MOUNTS);
+        let hb = self.rng.below(2);
+        self.push("nest", &format!("{} {} {} {}", depth, shex(mount), shex(&rel), hb));
+    }
+
     // ---- (v) derived struct behind a mount
     fn derived_scenario(&mut self) {
         const ROOTS: &[&str] = &["/d", "", "/x/y", "d"];
@@ -1781,6 +1914,7 @@ impl Gen {
             "", "/a", "/ro", "/inner", "/inner/x", "/inner/deep", "/inner/deep/z", "/echo", "/ping", "/touch", "/", "/a/", "/a/b", "/nope", "/inner/nope",
             "/inner/deep/z/q", "/inner//x", "/ping/x", "/a~0", "/inner~1x", "/inner/deep/z/1/2/3/4/5/6/7/8/9/10/11/12/13/14/15/16",
             "/a", "/inner/x", "/inner/deep/z", "/echo", "/alias", "/renamed", "/hidden",
+            "/inner/", "/inner/deep/", "/inner//", "//", "//a", "/inner/deep//z", "/inner/x/",
         ];
         let lock = self.rng.below(5);
         self.push("dreset", &lock.to_string());
@@ -1860,7 +1994,11 @@ impl Gen {
         let order = ov.order.unwrap_or_else(|| self.rng.below(2));
         let voff = self.rng.below(9);
         // where the route lives: the usual short path, non-ASCII, long, deep
-        let tpath: String = match self.rng.below(8) {
+        let exact_kind = !matches!(kind, "registry" | "struct");
+        let tpath: String = match self.rng.below(10) {
+            // the zero-segment path: an exact route AT "", or a mount at the root with "" as the request path
+            8 => if exact_kind { String::new() } else { "/x".to_string() },
+            9 => if exact_kind { "/".to_string() } else { "/x".to_string() },
             0 => "/é/日本".to_string(),
             1 => format!("/{}/{}", "p".repeat(self.rng.range(1, 300) as usize), "q".repeat(self.rng.range(1, 300) as usize)),
             2 => "/a/b/c/d/e/f/g/h/i/j/k/l/m/n/o/p/q/r/s/t".to_string(),
@@ -2021,6 +2159,17 @@ fn generate(args: &Args) -> Vec<String> {
     for _ in 0..(if thorough { 6000 } else { 250 }) {
         g.derived_scenario();
     }
+    // the named corner: exactly one trailing empty token below a nested field, every depth, read and write
+    for depth in 1..=3 {
+        for rel in ["/", "", "//", "/x/"] {
+            for hb in 0..2 {
+                g.push("nest", &format!("{} {} {} {}", depth, shex("/svc"), shex(rel), hb));
+            }
+        }
+    }
+    for _ in 0..(if thorough { 60000 } else { 2500 }) {
+        g.nest_case();
+    }
     // (h) request and response frames swept across the 8 KiB / 16 KiB buffer sizes of the servers' BufReader /
     // BufWriter, on both servers, socket leg forced
     for base in [8192usize, 16384] {
@@ -2081,13 +2230,13 @@ fn main() {
     let args = Args::parse();
     quiet_panics();
     let mut out = Out::new(&args.out);
-    out.rule = "(i) random registration orders of routes (all with_* registrars), registry mounts, struct mounts and tracing middleware over small overlapping path pools, a `get` after every registration; non-trivial = some middleware or mount present. (ii) prefix/path pairs built from the prefix (itself, normalised, minus a char, plus tails with and without '/'); (iii) struct mounts with relative paths of 0..40 segments biased to 15/16/17/18/40, empty segments, well-formed ~0/~1 escapes; (v) a #[derive(RepeStruct)] struct (plain / readonly / nested x2 fields, 3 methods) mounted at several roots via register_/with_struct_shared: reads, writes (JSON/UTF-8/BEVE/garbage/bad format), calls, invalid paths and subpaths, deep paths; (iv) every handler kind x body-format codes {0..4,255,4096,65535} x valid/near-valid/arbitrary bodies through handle/handle_with_ctx/handle_view of the plain, blocking and middleware-wrapped handler; non-trivial = reaches the decoder or a known format code".into();
+    out.rule = "(i) random registration orders of routes (all with_* registrars), registry mounts, struct mounts and tracing middleware over small overlapping path pools, a `get` after every registration; non-trivial = some middleware or mount present. (ii) prefix/path pairs built from the prefix (itself, normalised, minus a char, plus tails with and without '/'); (iii) struct mounts with relative paths of 0..40 segments biased to 15/16/17/18/40, empty segments, well-formed ~0/~1 escapes; (v) a #[derive(RepeStruct)] struct (plain / readonly / nested x2 fields, 3 methods) mounted at several roots via register_/with_struct_shared: reads, writes (JSON/UTF-8/BEVE/garbage/bad format), calls, invalid paths and subpaths, deep paths; (vi) a hand-written spy RepeStruct behind 1-3 levels of #[repe(nested)] fields of derived structs, remaining paths with empty tokens at every position, against the RFC 6901 tokens and against the same spy mounted directly at the longer prefix; (iv) every handler kind x body-format codes {0..4,255,4096,65535} x valid/near-valid/arbitrary bodies through handle/handle_with_ctx/handle_view of the plain, blocking and middleware-wrapped handler; non-trivial = reaches the decoder or a known format code".into();
     let lines = match args.replay_ops() {
         Some(l) => l,
         None => generate(&args),
     };
     if args.thorough() {
-        E2E_CAP.store(2500, Ordering::SeqCst);
+        E2E_CAP.store(6000, Ordering::SeqCst);
     }
     let mut sc = Scen::new();
     let mut ds = DState::new();
